@@ -63,6 +63,8 @@ def main(argv=None) -> int:
     parser.add_argument('--jobs', type=int, default=int(os.environ.get('VERIF_JOBS', '16')))
     args = parser.parse_args(argv)
     pid = args.property.upper()
+    if args.replay:
+        args.replay = os.path.abspath(args.replay)  # shards run inside their scratch directory
     seed = int(os.environ.get('VERIF_SEED', '0') or 0)
     modname = f'checks.{pid.lower()}'
     sys.path.insert(0, core.VERIF)
